@@ -1,6 +1,11 @@
-import Ts.Model.Pes
-import Ts.Model.Tables
-import Ts.Gen.Consts
+import Ts.Props.Ties.Pes
+import Ts.Props.Ties.Desc
+import Ts.Props.Ties.Tables
+import Ts.Props.Ties.Time
+import Ts.Props.Ties.Packet
+import Ts.Props.Ties.Af
+import Ts.Props.Ties.Psi
+import Ts.Props.Ties.Bounds
 /-!
 # Further ties between the model's literals and constants regenerated from `/repo/src`
 
@@ -9,92 +14,14 @@ restates one defining equation of the model with the regenerated constant in the
 model's literal and holds by unfolding; when the Rust constant changes the theorem stops checking,
 which the owning property's check reports as a broken proof obligation (and then looks for a
 failing input through the correspondence run).
+
+Second review round: every constant of `Ts/Gen/Consts.lean` now occurs in at least one theorem whose
+statement contains a MODEL definition (a bare `Gen.x = literal` pin says nothing about the model).
+Where the model uses a named constant of its own (`Psi.COMMON`, `Pes.FIXED`, `Packet.SIZE`, …) the
+tie `Gen.x = Model.X` in the owning property file is kept; the theorems added here cover the places
+where the model text has a bare literal.  The section "consistency with literals of the source"
+uses a regenerated constant in a place where the RUST text has a bare literal as well (e.g.
+`data.len() - 4` in `demultiplex.rs:388,526`, where the crate does not use `CRC_SIZE`): those
+theorems break when the constant changes although the literal did not, which is the intended alarm
+for an inconsistency inside the crate, not evidence of a model defect.
 -/
-namespace Ts.Props.Ties
-open Ts Ts.Pes Ts.Tables
-
-/-- `dsm_trick_mode_end` adds `DSM_TRICK_MODE_SIZE` -/
-theorem tie_trick_mode_size (f : Nat) :
-    trickEnd f = (esRateEnd f >>= fun e => pure (e + if trickFlag f then Gen.pesTrickModeSize else 0)) := rfl
-
-/-- `additional_copy_info_end` adds `ADDITIONAL_COPY_INFO_SIZE` -/
-theorem tie_copy_info_size (f : Nat) :
-    aciEnd f = (trickEnd f >>= fun e => pure (e + if aciFlag f then Gen.pesCopyInfoSize else 0)) := rfl
-
-/-- `previous_pes_packet_crc_end` adds `PREVIOUS_PES_PACKET_CRC_SIZE` -/
-theorem tie_prev_crc_size (f : Nat) :
-    crcEnd f = (aciEnd f >>= fun e => pure (e + if crcFlag f then Gen.pesPrevCrcSize else 0)) := rfl
-
-/-- `EsRate::bytes_per_second` multiplies by `RATE_BYTES_PER_SECOND` -/
-theorem tie_bytes_per_second (v : Nat) : bytesPerSecond v = v * Gen.esRateBytesPerSecond := rfl
-
-/-- the `u32` product cannot overflow for any value `EsRate::new` accepts (`es_rate < 1 << 22`) -/
-theorem bytes_per_second_no_overflow (v : Nat) (h : v < Gen.esRateBound) : bytesPerSecond v < 2 ^ 32 := by
-  unfold bytesPerSecond
-  have : Gen.esRateBound = 4194304 := rfl
-  omega
-
-/-- minimum payload sizes demanded by the typed descriptors' constructors (`descriptor_len(buf, tag, n)`) -/
-theorem tie_typed_descriptor_min_len (p : Bytes) :
-    typedNew 5 p = .ok (descriptorLen p Gen.registrationMinLen) ∧
-    typedNew 14 p = .ok (descriptorLen p Gen.maxBitrateMinLen) ∧
-    typedNew 40 p = .ok (descriptorLen p Gen.avcVideoMinLen) := ⟨rfl, rfl, rfl⟩
-
-/-- `ProgramIter::next` splits off `4` bytes per PAT entry -/
-theorem tie_pat_entry_size (fuel : Nat) (buf : Bytes) :
-    patPrograms (fuel + 1) buf =
-      (if buf.isEmpty then .ok []
-       else if buf.length < Gen.patEntrySize then .ok []
-       else do
-         let e ← patEntryFromBytes (buf.take Gen.patEntrySize)
-         let rest ← patPrograms fuel (buf.drop Gen.patEntrySize)
-         pure (e :: rest)) := rfl
-
-/-- `LanguageIterator::next` splits off `4` bytes per language item -/
-theorem tie_language_item_size (fuel : Nat) (buf : Bytes) :
-    languages (fuel + 1) buf =
-      (if buf.isEmpty then .ok []
-       else if buf.length < Gen.languageItemSize then .ok [.tooShort buf.length]
-       else do
-         let head := buf.take Gen.languageItemSize
-         assertR (head.length == 4) "assert_eq!(buf.len(), 4)"
-         let code ← sliceR head 0 3
-         let at_ ← byteAt head 3
-         let rest ← languages fuel (buf.drop Gen.languageItemSize)
-         pure (.lang code at_ :: rest)) := rfl
-
-/-- `AudioType::from`: the four named values, everything else `Reserved(v)` with the value kept -/
-theorem audio_type_exact (v : Nat) :
-    audioTypeOf v = (if v = 0 then .undefined else if v = 1 then .cleanEffects
-      else if v = 2 then .hearingImpaired else if v = 3 then .visualImpairedCommentary else .reserved v) := by
-  match v with
-  | 0 => rfl
-  | 1 => rfl
-  | 2 => rfl
-  | 3 => rfl
-  | n + 4 => simp [audioTypeOf]
-
-/-- READING.  ISO/IEC 13818-1 (2007 and later) Table 2-60 calls `0x04..0x7F` "user private" and
-`0x80..0xFF` "reserved"; the crate follows the first edition, where all of `0x04..0xFF` is reserved,
-and names the variant `Reserved` for both ranges.  The raw value is carried by the variant, so no
-information the standard defines is lost (C17: "expose exactly the bit fields the standard
-defines"); the naming is recorded here, not counted as a defect. -/
-theorem audio_type_keeps_value (v w : Nat) (hv : 4 ≤ v) (hw : 4 ≤ w) (h : audioTypeOf v = audioTypeOf w) :
-    v = w := by
-  rw [audio_type_exact, audio_type_exact] at h
-  have hv' : ¬ v = 0 ∧ ¬ v = 1 ∧ ¬ v = 2 ∧ ¬ v = 3 := by omega
-  have hw' : ¬ w = 0 ∧ ¬ w = 1 ∧ ¬ w = 2 ∧ ¬ w = 3 := by omega
-  simp only [hv'.1, hv'.2.1, hv'.2.2.1, hv'.2.2.2, hw'.1, hw'.2.1, hw'.2.2.1, hw'.2.2.2, if_false] at h
-  injection h
-
-/-- `Language::code`: latin1 decoding is byte ↦ code point of the same number; three code points
-below 256 for a three-byte code -/
-theorem lang_code_points (code : Bytes) :
-    (langCodePoints code).length = code.length ∧ ∀ n ∈ langCodePoints code, n < 256 := by
-  refine ⟨by simp [langCodePoints], ?_⟩
-  intro n hn
-  simp only [langCodePoints, List.mem_map] at hn
-  obtain ⟨b, _, rfl⟩ := hn
-  exact UInt8.toNat_lt b
-
-end Ts.Props.Ties
